@@ -58,6 +58,7 @@ func proofCheck(ck *Check) int {
 	ck.verifyFunctions(func(c *Contract) bool { return hasProp(c, ck.Prop) && !c.ByExec })
 	ck.proveLemmas()
 	ck.dataObligations()
+	ck.findingCanaries()
 	if f, ok := extraChecks[ck.Prop]; ok {
 		f(ck)
 	}
@@ -363,4 +364,42 @@ func (ck *Check) lemmaTexts(x *Exec, names []string) map[string]string {
 		}
 	}
 	return out
+}
+
+
+// findingCanaries re-runs, on the real code, the demonstration of every
+// repaired defect recorded for this property: a fixed finding suppresses
+// nothing, and if the defect returns the check reports it again.
+func (ck *Check) findingCanaries() {
+	var file struct {
+		Findings []struct {
+			Property      string `json:"property"`
+			Obligation    string `json:"obligation"`
+			Status        string `json:"status"`
+			Demonstration string `json:"demonstration"`
+		} `json:"findings"`
+	}
+	b, err := os.ReadFile(filepath.Join(ck.Verif, "known_findings.json"))
+	if err != nil {
+		return
+	}
+	json.Unmarshal(b, &file)
+	for _, f := range file.Findings {
+		if f.Property != ck.Prop || f.Demonstration == "" || f.Status != "fixed" {
+			continue
+		}
+		src, err := os.ReadFile(filepath.Join(ck.Verif, f.Demonstration))
+		if err != nil {
+			ck.engineErr = append(ck.engineErr, "canary: "+err.Error())
+			continue
+		}
+		out, _ := ck.runOverlayTest(".", "zz_govc_canary_"+filepath.Base(f.Demonstration), string(src), "^TestF[0-9]", 60*time.Second)
+		ok := strings.Contains(out, "\nPASS") || strings.HasPrefix(out, "PASS") || strings.Contains(out, "--- PASS")
+		failed := strings.Contains(out, "--- FAIL") || strings.Contains(out, "panic:")
+		d := map[string]any{"name": "canary/" + f.Obligation, "kind": "regression test of a repaired defect, run on the real code (a test, not a proof)", "ok": ok && !failed}
+		if !ok || failed {
+			d["output"] = firstLines(out, 30)
+		}
+		ck.bounded = append(ck.bounded, d)
+	}
 }
